@@ -1,114 +1,3 @@
-/-
-  Props/C17.lean — Manager: unique names, stable handles, harmless failed creates, precedence.
-  Every public method of Manager holds its mutex for its whole body (obligation of C11's lock discipline), so under
-  any interleaving the operations take effect in SOME order: the theorems below quantify over ALL operation
-  sequences, which covers all schedules of concurrent callers.
--/
-import CircuitModel.Manager
-import CircuitProofs.Lemmas.Mgr
-namespace CM.Props.C17
-open CM.Mgr
-
-/-- a CreateCircuit that fails because the name exists changes NOTHING: not the registry, not the stat factory's
-    binding, not the counters -/
-theorem failed_create_changes_nothing (s : State) (name : String) (cfgs : List Layer) (c : Circuit)
-    (h : s.get name = some c) : create s name cfgs = (s, .exists_) := by
-  exact create_some cfgs h
-
-/-- for every history, the creations of one name succeed EXACTLY ONCE if attempted at all (one winner) -/
-def createdCount (name : String) : List Op → List Out → Nat
-  | .create n _ :: ops, .created _ :: outs => (if n = name then 1 else 0) + createdCount name ops outs
-  | _ :: ops, _ :: outs => createdCount name ops outs
-  | _, _ => 0
-
-def attempts (name : String) (ops : List Op) : Nat :=
-  (ops.filter fun o => match o with | .create n _ => n = name | _ => false).length
-
-theorem one_winner (ctors : List Ctor) (ops : List Op) (name : String) :
-    createdCount name ops (run { ctors := ctors } ops) = (if attempts name ops = 0 then 0 else 1) := by
-  have attempts_create : ∀ (n : String) (cs : List Layer) (ops : List Op),
-      attempts name (.create n cs :: ops) = (if n = name then 1 else 0) + attempts name ops := by
-    intro n cs ops
-    by_cases hn : n = name
-    · simp [attempts, hn]; omega
-    · simp [attempts, hn]
-  have gen : ∀ (ops : List Op) (s : State), createdCount name ops (run s ops) =
-      if (s.get name).isSome then 0 else (if attempts name ops = 0 then 0 else 1) := by
-    intro ops
-    induction ops with
-    | nil => intro s; simp [createdCount, attempts]
-    | cons op ops ih =>
-      intro s
-      rw [run_cons]
-      cases op with
-      | create n cs =>
-        show createdCount name (Op.create n cs :: ops) ((create s n cs).2 :: run (create s n cs).1 ops) = _
-        rw [attempts_create]
-        cases hg : s.get n with
-        | some c =>
-          rw [create_some cs hg]
-          simp only [createdCount, ih]
-          by_cases hn : n = name
-          · subst hn; simp [hg]
-          · simp [hn]
-        | none =>
-          have hc : (create s n cs).2 = .created (mkCircuit s n cs) := by rw [create_none cs hg]
-          rw [hc]
-          simp only [createdCount, ih]
-          by_cases hn : n = name
-          · subst hn; simp [create_get_same cs hg, hg]
-          · simp [create_get_other s cs hn, hn]
-      | get n =>
-        show createdCount name (Op.get n :: ops) (Out.got (s.get n) :: run s ops) = _
-        simp [createdCount, ih, attempts]
-      | all =>
-        show createdCount name (Op.all :: ops) (Out.all _ :: run s ops) = _
-        simp [createdCount, ih, attempts]
-      | stats n =>
-        show createdCount name (Op.stats n :: ops) (Out.bound _ :: run s ops) = _
-        simp [createdCount, ih, attempts]
-  rw [gen]
-  simp [State.get]
-
-/-- the handle is stable: once created, GetCircuit returns that same circuit after ANY further history -/
-theorem get_returns_it (s : State) (name : String) (c : Circuit) (h : s.get name = some c) (ops : List Op) :
-    (exec s ops).get name = some c := by
-  exact exec_inv (fun s => s.get name = some c) (fun s op hs => step_get_preserve hs op) s ops h
-
-/-- AllCircuits holds exactly the successfully created circuits: ids 0 … k-1 where k creations succeeded -/
-theorem all_is_exactly_created (ctors : List Ctor) (ops : List Op) :
-    let s := exec { ctors := ctors } ops
-    (step s .all).2 = .all (List.range s.nextId) ∧ s.circuits.length = s.nextId := by
-  intro s
-  have hinv : IdsInv s := exec_inv IdsInv idsInv_step _ ops (by simp [IdsInv])
-  unfold IdsInv at hinv
-  refine ⟨?_, ?_⟩
-  · show Out.all (sortNat (s.circuits.map (·.2.id))) = _
-    rw [hinv, sortNat_range]
-  · have := congrArg List.length hinv
-    simpa using this
-
-/-- PRECEDENCE: a created circuit's settings are taken, field by field, from the explicit configs in argument
-    order, then from the default constructors from last to first, then from the library defaults; booleans are set
-    if any layer sets them -/
-theorem precedence_holds (s : State) (name : String) (cfgs : List Layer) (h : s.get name = none) :
-    ∃ c s', create s name cfgs = (s', .created c) ∧ c.cfg = specCfg s.ctors cfgs := by
-  refine ⟨mkCircuit s name cfgs, _, create_none cfgs h, ?_⟩
-  rw [mkCircuit_cfg, foldl_merge_eq_spec]
-
-/-- the stats a StatFactory hands out for a live name are the ones attached to the live circuit, after ANY history
-    (with at most one stat factory among the constructors) -/
-theorem stats_stay_bound (ctors : List Ctor) (hone : (ctors.filter (· == .statFactory)).length ≤ 1) (ops : List Op)
-    (name : String) (c : Circuit) (h : (exec { ctors := ctors } ops).get name = some c) :
-    c.stats = (if ctors.contains .statFactory then (exec { ctors := ctors } ops).statFor name else none) := by
-  have hinv : StatInv ctors (exec { ctors := ctors } ops) :=
-    exec_inv (StatInv ctors) (statInv_step ctors hone) _ ops
-      ⟨rfl, by intro n c hget; simp [State.get] at hget⟩
-  exact hinv.2 name c h
-
-example : run { ctors := [.layer { timeout := 5 }, .statFactory, .layer { timeout := 7, maxConc := 3 }] }
-    [.create "a" [{ maxConc := 9 }], .create "a" [], .stats "a", .get "a"]
-  = [.created { id := 0, cfg := { timeout := 7, maxConc := 9, fbMaxConc := 10 }, stats := some 0 }, .exists_, .bound (some true),
-     .got (some { id := 0, cfg := { timeout := 7, maxConc := 9, fbMaxConc := 10 }, stats := some 0 })] := by decide
-
-end CM.Props.C17
+/- Props/C17.lean — property C17: all theorems live in namespace CM.Props.C17, split over two files. -/
+import CircuitProofs.Props.C17Seq
+import CircuitProofs.Props.C17Conc
